@@ -126,9 +126,9 @@ type pcmd struct {
 	kind    string // STATUS, LIST, FETCH, ...
 	arg     string
 	issue   func(c *imapclient.Client) interface{} // returns the command object
-	data    func(tag string) []string               // untagged lines sent for it (when not refused early)
+	data    func(tag string) []string              // untagged lines sent for it (when not refused early)
 	out     outcome
-	okCode  string // response code on OK (e.g. COPYUID ...)
+	okCode  string                                  // response code on OK (e.g. COPYUID ...)
 	check   func(cmd interface{}, err error) string // compares delivered data with what was sent; "" = fine
 	tag     string
 	cmdObj  interface{}
@@ -576,7 +576,9 @@ func mkCommands(rng *rand.Rand, selected bool, numMsgs uint32) []*pcmd {
 	}
 	if rng.Intn(2) == 0 {
 		all = append(all, &pcmd{kind: "SEARCH",
-			issue: func(c *imapclient.Client) interface{} { return c.Search(&imap.SearchCriteria{Flag: []imap.Flag{imap.FlagSeen}}, nil) },
+			issue: func(c *imapclient.Client) interface{} {
+				return c.Search(&imap.SearchCriteria{Flag: []imap.Flag{imap.FlagSeen}}, nil)
+			},
 			data: func(tag string) []string {
 				s := "* SEARCH"
 				for _, q := range found {
@@ -1104,15 +1106,287 @@ func (r *runner) fetchStar(rng *rand.Rand) {
 	}
 }
 
+// ---- same-type commands answered in issue order -------------------------------------
+
+// Untagged SEARCH / LIST / NAMESPACE data carries no tag: with several commands of
+// the same type in flight a server answers them in the order they were issued, and
+// each data line belongs to the oldest one still pending.
+func (r *runner) sameTypeInOrder(rng *rand.Rand) {
+	s := r.newSetup(rng, false, true)
+	if s == nil {
+		return
+	}
+	defer s.cEnd.Close()
+	defer s.p.conn.Close()
+	kind := []string{"SEARCH", "LIST", "NAMESPACE", "STATUS-same-mailbox"}[rng.Intn(4)]
+	r.class = "same-type-in-order/" + kind
+	n := 2 + rng.Intn(3)
+	type one struct {
+		cmd  interface{}
+		tag  string
+		sent []uint32
+		name string
+	}
+	var cmds []*one
+	issue := func(f func() interface{}) *one {
+		o := &one{cmd: f()}
+		rc, err := s.p.readCmd()
+		if err != nil {
+			return nil
+		}
+		o.tag = rc.tag
+		r.hist = append(r.hist, "C: "+strings.TrimSpace(firstLine(rc.line)))
+		return o
+	}
+	// commands in front that complete first (they make the pending queue shift)
+	var front []*one
+	for k := rng.Intn(3); k > 0; k-- {
+		o := issue(func() interface{} { return s.c.Noop() })
+		if o == nil {
+			return
+		}
+		front = append(front, o)
+	}
+	for i := 0; i < n; i++ {
+		var o *one
+		switch kind {
+		case "SEARCH":
+			o = issue(func() interface{} { return s.c.Search(&imap.SearchCriteria{Larger: int64(i + 1)}, nil) })
+		case "LIST":
+			o = issue(func() interface{} { return s.c.List("", fmt.Sprintf("p%d*", i), nil) })
+		case "NAMESPACE":
+			o = issue(func() interface{} { return s.c.Namespace() })
+		default:
+			o = issue(func() interface{} { return s.c.Status("Work", &imap.StatusOptions{NumMessages: true}) })
+		}
+		if o == nil {
+			return
+		}
+		cmds = append(cmds, o)
+	}
+	// complete the front commands in a random order first
+	rng.Shuffle(len(front), func(i, j int) { front[i], front[j] = front[j], front[i] })
+	for _, o := range front {
+		if !r.send(s.p, s.cEnd, o.tag+" OK done\r\n") {
+			return
+		}
+	}
+	for i, o := range cmds {
+		switch kind {
+		case "SEARCH":
+			line := "* SEARCH"
+			for q := 0; q < 1+rng.Intn(4); q++ {
+				v := uint32(10*(i+1) + q)
+				o.sent = append(o.sent, v)
+				line += fmt.Sprintf(" %d", v)
+			}
+			if !r.send(s.p, s.cEnd, line+"\r\n") {
+				return
+			}
+		case "LIST":
+			o.name = fmt.Sprintf("p%dbox", i)
+			if !r.send(s.p, s.cEnd, fmt.Sprintf("* LIST () \"/\" %s\r\n", o.name)) {
+				return
+			}
+		case "NAMESPACE":
+			o.name = fmt.Sprintf("ns%d/", i)
+			if !r.send(s.p, s.cEnd, fmt.Sprintf("* NAMESPACE ((\"%s\" \"/\")) NIL NIL\r\n", o.name)) {
+				return
+			}
+		default:
+			o.sent = []uint32{uint32(100 + i)}
+			if !r.send(s.p, s.cEnd, fmt.Sprintf("* STATUS \"Work\" (MESSAGES %d)\r\n", 100+i)) {
+				return
+			}
+		}
+		if !r.send(s.p, s.cEnd, o.tag+" OK done\r\n") {
+			return
+		}
+	}
+	for i, o := range cmds {
+		res := make(chan string, 1)
+		go func() {
+			switch c := o.cmd.(type) {
+			case *imapclient.SearchCommand:
+				d, err := c.Wait()
+				var got []uint32
+				if err == nil && d.All != nil {
+					got = d.AllSeqNums()
+				}
+				if err != nil || u32s(got) != u32s(o.sent) {
+					res <- fmt.Sprintf("SEARCH #%d (%s): delivered %v (err %v), the server sent %v for it", i+1, o.tag, got, err, o.sent)
+					return
+				}
+			case *imapclient.ListCommand:
+				l, err := c.Collect()
+				if err != nil || len(l) != 1 || l[0].Mailbox != o.name {
+					var got []string
+					for _, d := range l {
+						got = append(got, d.Mailbox)
+					}
+					res <- fmt.Sprintf("LIST #%d (%s): delivered %v (err %v), the server sent [%s] for it", i+1, o.tag, got, err, o.name)
+					return
+				}
+			case *imapclient.NamespaceCommand:
+				d, err := c.Wait()
+				if err != nil || len(d.Personal) != 1 || d.Personal[0].Prefix != o.name {
+					res <- fmt.Sprintf("NAMESPACE #%d (%s): delivered %+v (err %v), the server sent prefix %s for it", i+1, o.tag, d.Personal, err, o.name)
+					return
+				}
+			case *imapclient.StatusCommand:
+				d, err := c.Wait()
+				if err != nil || d.NumMessages == nil || *d.NumMessages != o.sent[0] {
+					res <- fmt.Sprintf("STATUS #%d (%s): delivered %+v (err %v), the server sent MESSAGES %d for it", i+1, o.tag, d.NumMessages, err, o.sent[0])
+					return
+				}
+			}
+			res <- ""
+		}()
+		select {
+		case msg := <-res:
+			if msg != "" {
+				r.fail("wrong-data@same-type/"+kind, msg, nil)
+			}
+		case <-time.After(30 * time.Second):
+			r.fail("command-not-completed@same-type/"+kind, fmt.Sprintf("command #%d (%s) did not complete", i+1, o.tag), nil)
+			return
+		}
+	}
+	for _, o := range front {
+		o.cmd.(*imapclient.Command).Wait()
+	}
+	r.compare(s.c, s.ref, "same-type batch")
+}
+
+// ---- EXPUNGE / MOVE commands: data goes to the command AND updates the mirror ----------
+
+func (r *runner) expungeCommand(rng *rand.Rand) {
+	s := r.newSetup(rng, false, true)
+	if s == nil {
+		return
+	}
+	defer s.cEnd.Close()
+	defer s.p.conn.Close()
+	if s.ref.mbox.num < 3 {
+		return
+	}
+	// a unilateral EXPUNGE first (during NOOP)
+	nc := s.c.Noop()
+	rc, err := s.p.readCmd()
+	if err != nil {
+		return
+	}
+	s.ref.mbox.num--
+	if !r.send(s.p, s.cEnd, "* 1 EXPUNGE\r\n") || !r.compare(s.c, s.ref, "* 1 EXPUNGE (unilateral)") {
+		return
+	}
+	if !r.send(s.p, s.cEnd, rc.tag+" OK\r\n") {
+		return
+	}
+	nc.Wait()
+	useMove := rng.Intn(3) == 0
+	uidExp := rng.Intn(2) == 0
+	var cmdObj interface{}
+	switch {
+	case useMove:
+		r.class = "expunge-command/MOVE"
+		cmdObj = s.c.Move(imap.SeqSetNum(1, 2), "Trash")
+	case uidExp:
+		r.class = "expunge-command/UID EXPUNGE"
+		cmdObj = s.c.UIDExpunge(imap.UIDSet{{Start: 1, Stop: 0}})
+	default:
+		r.class = "expunge-command/EXPUNGE"
+		cmdObj = s.c.Expunge()
+	}
+	rc, err = s.p.readCmd()
+	if err != nil {
+		return
+	}
+	r.hist = append(r.hist, "C: "+strings.TrimSpace(rc.line))
+	if useMove {
+		if !r.send(s.p, s.cEnd, "* OK [COPYUID 9 101:102 7:8] moved\r\n") {
+			return
+		}
+	}
+	k := 1 + rng.Intn(int(s.ref.mbox.num)-1)
+	if useMove {
+		k = 2
+	}
+	var sent []uint32
+	for i := 0; i < k; i++ {
+		q := 1 + uint32(rng.Intn(int(s.ref.mbox.num)))
+		sent = append(sent, q)
+		s.ref.mbox.num--
+		l := fmt.Sprintf("* %d EXPUNGE\r\n", q)
+		if !r.send(s.p, s.cEnd, l) || !r.compare(s.c, s.ref, strings.TrimSpace(l)+" (answering "+rc.name+")") {
+			return
+		}
+	}
+	if !r.send(s.p, s.cEnd, rc.tag+" OK done\r\n") {
+		return
+	}
+	done := make(chan string, 1)
+	go func() {
+		switch c := cmdObj.(type) {
+		case *imapclient.ExpungeCommand:
+			got, err := c.Collect()
+			if err != nil || u32s(got) != u32s(sent) {
+				done <- fmt.Sprintf("%s: delivered %v (err %v), the server sent %v", rc.name, got, err, sent)
+				return
+			}
+		case *imapclient.MoveCommand:
+			d, err := c.Wait()
+			if err != nil || d == nil || d.UIDValidity != 9 || d.DestUIDs == nil || d.DestUIDs.String() != "7:8" {
+				done <- fmt.Sprintf("MOVE: delivered %+v (err %v), the server sent COPYUID 9 101:102 7:8", d, err)
+				return
+			}
+		}
+		done <- ""
+	}()
+	select {
+	case msg := <-done:
+		if msg != "" {
+			r.fail("wrong-data@"+rc.name, msg, nil)
+		}
+	case <-time.After(30 * time.Second):
+		r.fail("command-not-completed@"+rc.name, rc.name+" did not complete", nil)
+		return
+	}
+	if !r.compare(s.c, s.ref, rc.name+" OK") {
+		return
+	}
+	// FETCH * afterwards must still be routed (the last message is defined by the mirrored count)
+	if s.ref.mbox.num > 0 {
+		fc := s.c.Fetch(imap.SeqSet{{Start: 0, Stop: 0}}, &imap.FetchOptions{Flags: true})
+		rc, err = s.p.readCmd()
+		if err != nil {
+			return
+		}
+		if !r.send(s.p, s.cEnd, fmt.Sprintf("* %d FETCH (FLAGS ())\r\n%s OK\r\n", s.ref.mbox.num, rc.tag)) {
+			return
+		}
+		msgs, err := fc.Collect()
+		if err != nil || len(msgs) != 1 {
+			r.fail("wrong-data@FETCH-star-after-expunge", fmt.Sprintf("FETCH * after %s: %d messages delivered (err %v), the server sent message %d", r.class, len(msgs), err, s.ref.mbox.num), nil)
+		}
+	}
+}
+
 func body(w *hx.W) {
 	rng := w.Rand("c12")
 	n := w.Pick(5000, 100000)
 	for i := 0; i < n; i++ {
 		r := &runner{w: w}
 		switch {
-		case i%10 < 6:
+		case i%10 < 4:
 			r.class = "pipelined"
 			r.pipelined(rng)
+		case i%10 == 4:
+			r.class = "same-type-in-order"
+			r.sameTypeInOrder(rng)
+		case i%10 == 5:
+			r.class = "expunge-command"
+			r.expungeCommand(rng)
 		case i%10 < 8:
 			r.class = "state-sequence"
 			r.stateSequence(rng)
@@ -1136,7 +1410,7 @@ func main() {
 	hx.Main(hx.Spec{
 		ID:    "C12",
 		Level: "exploration",
-		Rule: "scripts for a conformant scripted server: (a) 2..6 pipelined commands that are unambiguous per RFC 9051 §5.5 (STATUS x2 on distinct mailboxes, LIST, NAMESPACE, NOOP, CREATE, APPEND, one of FETCH / UID FETCH / STORE, SEARCH or UID SEARCH/ESEARCH, COPY) with a random outcome each (OK with or without text / NO / BAD, with and without response codes), answered in a random interleaving that keeps each command's own order, with unilateral EXISTS / EXPUNGE / FLAGS / PERMANENTFLAGS in between; (b) state sequences of SELECT (OK / NO / BAD, with and without [CLOSED]), UNSELECT / CLOSE, STATUS, unilateral updates, LOGOUT; (c) tagged refusal of a synchronising literal with another command in flight; (d) FETCH with sets containing '*'; distinct = distinct transcript",
+		Rule:  "scripts for a conformant scripted server: (a) 2..6 pipelined commands that are unambiguous per RFC 9051 §5.5 (STATUS x2 on distinct mailboxes, LIST, NAMESPACE, NOOP, CREATE, APPEND, one of FETCH / UID FETCH / STORE, SEARCH or UID SEARCH/ESEARCH, COPY) with a random outcome each (OK with or without text / NO / BAD, with and without response codes), answered in a random interleaving that keeps each command's own order, with unilateral EXISTS / EXPUNGE / FLAGS / PERMANENTFLAGS in between; (b) state sequences of SELECT (OK / NO / BAD, with and without [CLOSED]), UNSELECT / CLOSE, STATUS, unilateral updates, LOGOUT; (c) tagged refusal of a synchronising literal with another command in flight; (d) FETCH with sets containing '*'; (e) 2..4 commands of the same type (SEARCH, LIST, NAMESPACE, STATUS on one mailbox) behind commands that complete first, answered in issue order; (f) EXPUNGE / UID EXPUNGE / MOVE commands whose EXPUNGE data must reach the command and the mirrored count; distinct = distinct transcript",
 		Assumptions: []string{
 			"the client's reader being parked with nothing pending means everything sent so far has been processed; State()/Mailbox() are compared at exactly these points, after every scripted line",
 			"reference interpretation: greeting OK => not authenticated, PREAUTH => authenticated; LOGIN OK => authenticated; [CLOSED] => authenticated and no mailbox; SELECT OK => selected with the EXISTS / FLAGS / PERMANENTFLAGS sent for it; SELECT NO => no mailbox selected; SELECT BAD => unchanged; UNSELECT / CLOSE OK => authenticated; LOGOUT OK => logout; unilateral EXISTS / EXPUNGE / FLAGS / PERMANENTFLAGS update the summary",
